@@ -61,7 +61,7 @@ impl Prop for Families {
         600
     }
     fn cases(&self, tier: Tier) -> u64 {
-        tier.pick(40_000, 1_000_000)
+        tier.pick(40_000, 4_000_000)
     }
     fn generate(&self, g: &mut Gen) -> Case {
         let universe = gen_universe(g, &UniverseOpts { max_zones: 7, max_depth: 4, multi_address_hosts: false, wildcards: false, aliases: true });
